@@ -925,6 +925,13 @@ def run_sim_case(case, ex, pool, pristine=None):
     with draw_recorder(draws):
         r4, st4 = run(sim4, case["seed"])
     calls = list(CALLS)
+    # the simulator's public attribute `gates` is replaced between runs: the next run samples from the NEW gate set only
+    other = ["ScaledNoiseGates", 3.0, ["constant"]] if case["set"][0] != "ScaledNoiseGates" else ["standard_gates"]
+    sim.gates = fresh_gate_set(other)
+    r5, st5 = run(sim, case["seed"])
+    sim6 = MrAndersonSimulator(gates=fresh_gate_set(other), CircuitClass=getattr(cm, case["cls"]), parallel=False)
+    r6, st6 = run(sim6, case["seed"])
+    sim.gates = gs
     if r1 != r2:
         out["fail"] = "two sequential runs on one simulator object after the same seed return different dicts"
     elif not same_state(st1, st2):
@@ -935,6 +942,9 @@ def run_sim_case(case, ex, pool, pristine=None):
         out["fail"] = "the run modified the caller's psi0 / device parameters / layout / circuit"
     elif pristine is not None and pristine.ask({"kind": "sim", "case": case})["res"] != r1:
         out["fail"] = "a run on the used simulator object differs from the run a process without any history performs after the same seed"
+    elif r5 != r6 or not same_state(st5, st6):
+        out["fail"] = ("after the simulator's gate set was replaced (sim.gates = ...), a run after the same seed differs from the run of a "
+                       "new simulator built on that gate set: an earlier run's gate set is still in use")
     elif r4 != r1:
         out["fail"] = "a run through a pass-through recording proxy of the gate set differs (the shot loop depends on more than the gate set's methods)"
     out.update(r1=r1, r2=r2, r3=r3, calls=calls, draws=draws, cache_growth=cache_after - cache_before)
